@@ -1526,7 +1526,7 @@ class ASTForeignKeyExpression(ASTBase):
         slave_columns_str = ", ".join([f"{column}" for column in self.slave_columns])
         master_columns_str = ", ".join([f"{column}" for column in self.master_columns])
         on_delete_str = f" ON DELETE {self.on_delete}" if self.on_delete is not None else ""
-        on_update_str = f" ON UPDATE {self.on_delete}" if self.on_update is not None else ""
+        on_update_str = f" ON UPDATE {self.on_update}" if self.on_update is not None else ""
         return (f"CONSTRAINT {self.constraint_name} FOREIGN KEY ({slave_columns_str}) "
                 f"REFERENCES {self.master_table_name} ({master_columns_str}){on_delete_str}{on_update_str}")
 
